@@ -15,7 +15,7 @@ any observable differs:
 the same entity); `sat` = a concrete host environment under which some reference designates something else; the
 model is re-evaluated with plain integers before anything is reported.  A history that leaves a live reference to
 a deleted entity must make encode() fail loudly (C09).
-Bounded: the base module below, histories of <= 2 (quick) / 3 (thorough) steps from the menus below.
+Bounded: the base module below; histories from the menus below: all of <= 2 steps plus a seeded sample of 1500 three-step ones (quick), all of <= 3 steps (thorough).
 """
 import os, json, time, itertools, hashlib, re
 import z3
@@ -40,10 +40,10 @@ BASE = {
     ],
     # function index space: 0 ifx (unreferenced), 1 if0, 2.. locals
     "funcs": [
-        {"body": [["global.get", 3], ["call", 1], ["i32.add"]]},                                  # 2
+        {"body": [["global.get", 3], ["call", 1], ["i32.add"]], "nlocals": 1},                    # 2
         {"body": [["global.get", 4], ["i32.const", 0], ["i32.load", 2], ["i32.add"]]},            # 3
         {"body": [["i32.const", 33]]},                                                            # 4  unreferenced
-        {"body": [["call", 2], ["global.get", 6], ["i32.add"], ["memory.size", 1], ["i32.add"]]},  # 5
+        {"body": [["call", 2], ["global.get", 6], ["i32.add"], ["memory.size", 1], ["i32.add"]], "nlocals": 2},  # 5
     ],
     # memory index space: 0 imx (unreferenced), 1 im0, 2.. locals
     "memories": [{"min": 3}, {"min": 4}],          # 2 (used), 3 (unreferenced)
@@ -64,6 +64,12 @@ BASE = {
         {"mem": 1, "offset": [["global.get", 1]], "bytes": [3]},
         {"mem": 2, "offset": [["global.get", 2]], "bytes": [4, 5]},
     ],
+    # a complete name section (C29): functions, globals, locals
+    "names": {
+        "funcs": [[0, "nm_ifx"], [1, "nm_if0"], [2, "nm_f2"], [3, "nm_f3"], [4, "nm_f4"], [5, "nm_f5"]],
+        "globals": [[0, "gn_igx"], [1, "gn_ig0"], [2, "gn_ig1"], [3, "gn_g3"], [4, "gn_g4"], [5, "gn_g5"], [6, "gn_g6"]],
+        "locals": [[2, [[0, "loc_f2"]]], [5, [[0, "loc_f5_a"], [1, "loc_f5_b"]]]],
+    },
 }
 
 REFKIND = {"global.get": "G", "global.set": "G", "call": "F", "ref.func": "F", "i32.load": "M", "memory.size": "M"}
@@ -80,6 +86,7 @@ class Linked:
         self.elems = []                            # {"offset", "items": [tokens-list]}
         self.tables = []                           # {"init": tokens|None}
         self.imports = []                          # (kind, name)
+        self.names = {"F": {}, "G": {}, "L": {}}   # key -> name ; (function key, local index) -> name
 
 
 def link_decoded(d):
@@ -96,7 +103,10 @@ def link_decoded(d):
     for g in d["globals"]:
         key = len(L.G); L.G[key] = {"init": g["init"], "mut": g.get("mut", False)}; L.order["G"].append(key)
     for f in d["funcs"]:
-        key = len(L.F); L.F[key] = {"body": f["body"]}; L.order["F"].append(key)
+        key = len(L.F)
+        ty = (d.get("types") or [None] * 99)[f["type"]] if f.get("type") is not None else None
+        L.F[key] = {"body": f["body"], "locals": tuple(f.get("locals", [])), "sig": (tuple(ty["params"]), tuple(ty["results"])) if ty else None}
+        L.order["F"].append(key)
     for m in d["memories"]:
         key = len(L.M); L.M[key] = {"min": m["min"]}; L.order["M"].append(key)
     for e in d["exports"]:
@@ -111,6 +121,11 @@ def link_decoded(d):
         L.elems.append({"offset": e.get("offset"), "items": items})
     for t in d["tables"]:
         L.tables.append({"init": t["init"]})
+    nm = d.get("names") or {}
+    for i, n in nm.get("funcs", []): L.names["F"][i] = n
+    for i, n in nm.get("globals", []): L.names["G"][i] = n
+    for f, inner in nm.get("locals", []):
+        for i, n in inner: L.names["L"][(f, i)] = n
     return L
 
 
@@ -137,7 +152,7 @@ class RefModel:
             L.G[lab] = {"init": g["init"], "mut": g.get("mut", False), "_raw": True}; L.order["G"].append(lab); self.base_key["G"].append(lab)
         for f in base["funcs"]:
             lab = "F:b%d" % len(self.base_key["F"])
-            L.F[lab] = {"body": f["body"], "_raw": True}; L.order["F"].append(lab); self.base_key["F"].append(lab)
+            L.F[lab] = {"body": f["body"] + [["end"]], "_raw": True, "locals": tuple(["i32"] * f.get("nlocals", 0)), "sig": ((), ("i32",))}; L.order["F"].append(lab); self.base_key["F"].append(lab)
         for m in base["memories"]:
             lab = "M:b%d" % len(self.base_key["M"])
             L.M[lab] = {"min": m["min"]}; L.order["M"].append(lab); self.base_key["M"].append(lab)
@@ -157,6 +172,12 @@ class RefModel:
             L.elems.append({"offset": self.base_toks(e["offset"]), "items": [self.base_toks(i) for i in items]})
         for t in base["tables"]:
             L.tables.append({"init": self.base_toks(t["init"]) if t["init"] else None})
+        nm = base.get("names") or {}
+        for i, n in nm.get("funcs", []): L.names["F"][self.base_key["F"][i]] = n
+        for i, n in nm.get("globals", []): L.names["G"][self.base_key["G"][i]] = n
+        for f, inner in nm.get("locals", []):
+            for i, n in inner: L.names["L"][(self.base_key["F"][f], i)] = n
+        self.base_imports = [(i["kind"], i["name"]) for i in base["imports"]]
         self.results = []      # label (or None) created by each step
 
     def base_toks(self, toks):
@@ -196,9 +217,32 @@ class RefModel:
             elif op == "add_import_func":
                 lab = "F:r%d" % n; L.F[lab] = {"import": s["name"]}; L.order["F"].append(lab); L.imports.append(("func", s["name"]))
             elif op == "add_local_func":
-                lab = "F:r%d" % n; L.F[lab] = {"body": self.toks(s["body"])}; L.order["F"].append(lab)
+                lab = "F:r%d" % n
+                L.F[lab] = {"body": self.toks(s["body"]) + [["end"]], "locals": tuple(s.get("locals", [])), "sig": (tuple(s.get("params", [])), ("i32",))}
+                L.order["F"].append(lab)
+                if s.get("name"):
+                    L.names["F"][lab] = s["name"]
             elif op == "delete_func":
                 self.delete("F", self.ref(s["id"], "F"))
+            elif op == "set_fn_name":
+                L.names["F"][self.ref(s["id"], "F")] = s["name"]
+            elif op == "replace_import":
+                # the function bound to this import entry becomes a local function; its ID keeps designating it
+                imp = self.base_imports[s["import_id"]]
+                assert imp[0] == "func"
+                cand = [l for l, f in L.F.items() if f.get("import") == imp[1]]
+                if cand:                       # (an import that was already replaced: nothing left to replace)
+                    flab = cand[0]
+                    if flab not in self.deleted:
+                        L.imports.remove(("func", imp[1]))
+                    self.deleted.discard(flab)     # (a deleted import that is replaced is a live local function again)
+                    L.F[flab] = {"body": self.toks(s["body"]) + [["end"]], "locals": (), "sig": ((), ("i32",))}
+            elif op == "convert_local_to_import":
+                flab = self.ref(s["id"], "F")
+                if "import" not in L.F[flab]:          # (an import is refused: nothing changes)
+                    L.F[flab] = {"import": s["name"]}
+                    self.deleted.discard(flab)
+                    L.imports.append(("func", s["name"]))
             elif op == "add_import_memory":
                 lab = "M:r%d" % n; L.M[lab] = {"import": s["name"], "min": s["min"]}; L.order["M"].append(lab); L.imports.append(("memory", s["name"]))
             elif op == "add_local_memory":
@@ -265,6 +309,9 @@ class RefModel:
             for lab in dead:
                 tab.pop(lab, None)
             L.order[k] = [x for x in L.order[k] if x not in dead]
+        for lab in dead:
+            L.names["F"].pop(lab, None); L.names["G"].pop(lab, None)
+        L.names["L"] = {k: v for k, v in L.names["L"].items() if k[0] not in dead}
         return L
 
 
@@ -342,10 +389,30 @@ class Sem:
             raise Unsupported("expression leaves %d values" % len(st))
         return st[0]
 
-    def observables(self):
+    def observables(self, names=False, builder=False):
         """-> (structure: dict name -> hashable, values: dict name -> term)"""
         S, V = {}, {}
         L = self.L
+        if builder:
+            # C12: every exported local function: signature, declared locals, instruction sequence (opcodes; the
+            # entities its immediates designate are compared through the function's value), name
+            for e in L.exports:
+                f = L.F.get(e["ref"]) if e["kind"] == "func" else None
+                if f is not None and "import" not in f:
+                    S["builder-sig:" + e["name"]] = f.get("sig")
+                    S["builder-locals:" + e["name"]] = f.get("locals")
+                    S["builder-ops:" + e["name"]] = tuple(t[0] for t in f["body"])
+                    S["builder-name:" + e["name"]] = L.names["F"].get(e["ref"])
+        if names:
+            S["names.funcs"] = tuple(sorted(L.names["F"].values()))
+            S["names.globals"] = tuple(sorted(L.names["G"].values()))
+            S["names.locals"] = tuple(sorted((n, k[1]) for k, n in L.names["L"].items()))
+            for key, n in L.names["F"].items():
+                V["name-func:" + n] = self.fval(key)
+            for key, n in L.names["G"].items():
+                V["name-global:" + n] = self.gval(key)
+            for (fk, li), n in L.names["L"].items():
+                V["name-local:" + n] = self.fval(fk)
         S["count.globals"] = len(L.G); S["count.funcs"] = len(L.F); S["count.memories"] = len(L.M)
         S["imports"] = tuple(sorted(L.imports))
         S["exports"] = tuple(sorted((e["name"], e["kind"]) for e in L.exports))
@@ -393,6 +460,12 @@ def menu(kind):
         creator("add_global(const)", lambda k, c: {"op": "add_global", "init": [["i32.const", 700 + k]]}, "G")
         creator("add_global(global.get base import)", lambda k, c: {"op": "add_global", "init": [G(B(2))]}, "G")
         creator("iterator.add_global(const)", lambda k, c: {"op": "it_add_global", "init": [["i32.const", 800 + k]]}, "G")
+    if kind in ("ADD",):
+        creator("add_data(offset global.get earlier import)", lambda k, c: {"op": "add_data", "mem": B(2), "offset": [G(R(c["Gimp"][-1]))], "bytes": [9, k]} if c["Gimp"] else None, None)
+        creator("add_data(offset global.get base import)", lambda k, c: {"op": "add_data", "mem": B(2), "offset": [G(B(1))], "bytes": [8, k]}, None)
+        creator("add_global(global.get earlier)", lambda k, c: {"op": "add_global", "init": [G(R(c["Gimp"][-1]))]} if c["Gimp"] else None, "G")
+        creator("mod_global_init(base local, global.get earlier)", lambda k, c: {"op": "mod_global_init", "id": B(3), "init": [G(R(c["Gimp"][-1]))]} if c["Gimp"] else None, None)
+        creator("mod_global_init(base local, const)", lambda k, c: {"op": "mod_global_init", "id": B(4), "init": [["i32.const", 560 + k]]}, None)
     if kind in ("G",):
         creator("add_global(global.get earlier)", lambda k, c: {"op": "add_global", "init": [G(R(c["Gimp"][-1]))]} if c["Gimp"] else None, "G")
         creator("mod_global_init(base local, const)", lambda k, c: {"op": "mod_global_init", "id": B(3), "init": [["i32.const", 550 + k]]}, None)
@@ -407,6 +480,12 @@ def menu(kind):
         creator("delete_global(unreferenced base import)", lambda k, c: {"op": "delete_global", "id": B(0)}, None)
         creator("delete_global(earlier, unobserved)", lambda k, c: {"op": "delete_global", "id": R(c["Gq"][-1])} if c["Gq"] else None, None)
     if kind in ("DEL",):
+        # references that live ONLY in constant expressions (global initialiser, data offset), so that deleting
+        # their target is a dangling reference no code / export masks
+        creator("add_global(global.get earlier)", lambda k, c: {"op": "add_global", "init": [G(R(c["Gimp"][-1]))]} if c["Gimp"] else None, "G")
+        creator("add_data(offset global.get earlier import)", lambda k, c: {"op": "add_data", "mem": B(2), "offset": [G(R(c["Gimp"][-1]))], "bytes": [9, k]} if c["Gimp"] else None, None)
+        creator("mod_global_init(base local, global.get earlier)", lambda k, c: {"op": "mod_global_init", "id": B(5), "init": [G(R(c["Gimp"][-1]))]} if c["Gimp"] else None, None)
+        creator("delete_global(earlier import)", lambda k, c: {"op": "delete_global", "id": R(c["Gimp"][-1])} if c["Gimp"] else None, None)
         creator("delete_global(referenced base local)", lambda k, c: {"op": "delete_global", "id": B(3)}, None)
         creator("delete_global(referenced base import)", lambda k, c: {"op": "delete_global", "id": B(2)}, None)
         creator("delete_global(earlier, observed)", lambda k, c: {"op": "delete_global", "id": R(c["Go"][-1])} if c["Go"] else None, None)
@@ -426,6 +505,43 @@ def menu(kind):
     if kind in ("DEL",):
         creator("delete_func(referenced base local)", lambda k, c: {"op": "delete_func", "id": B(5)}, None)
         creator("delete_func(earlier, observed)", lambda k, c: {"op": "delete_func", "id": R(c["Fo"][-1])} if c["Fo"] else None, None)
+    if kind in ("F10",):
+        creator("replace_import(referenced import)", lambda k, c: {"op": "replace_import", "import_id": 4, "body": [["i32.const", 770 + k]]}, None)
+        creator("replace_import(unreferenced import)", lambda k, c: {"op": "replace_import", "import_id": 3, "body": [["call", B(2)], ["i32.const", 780 + k], ["i32.add"]]}, None)
+        creator("inject call(replaced import)", lambda k, c: {"op": "inject", "func": B(4), "at": 0, "mode": "after", "ops": [["call", B(0)], ["i32.add"]]}, None)
+    if kind in ("F11",):
+        creator("convert_local_to_import(referenced local)", lambda k, c: {"op": "convert_local_to_import", "id": B(2), "name": "cv%d" % k}, None)
+        creator("convert_local_to_import(unreferenced local)", lambda k, c: {"op": "convert_local_to_import", "id": B(4), "name": "cw%d" % k}, None)
+        creator("convert_local_to_import(earlier)", lambda k, c: {"op": "convert_local_to_import", "id": R(c["F"][-1]), "name": "cx%d" % k} if c["F"] else None, None)
+    if kind in ("F10", "F11"):
+        creator("add_import_func", lambda k, c: {"op": "add_import_func", "name": "nif%d" % k}, "F")
+        creator("add_local_func(call base local)", lambda k, c: {"op": "add_local_func", "body": [["call", B(2)], ["i32.const", 900 + k], ["i32.add"]]}, "F")
+        creator("add_local_func(call base import)", lambda k, c: {"op": "add_local_func", "body": [["call", B(1)], ["i32.const", 920 + k], ["i32.add"]]}, "F")
+        creator("delete_func(unreferenced base local)", lambda k, c: {"op": "delete_func", "id": B(4)}, None)
+        creator("delete_func(unreferenced base import)", lambda k, c: {"op": "delete_func", "id": B(0)}, None)
+    if kind in ("B12",):
+        creator("builder(plain)", lambda k, c: {"op": "add_local_func", "body": [["i32.const", 1200 + k]]}, "F")
+        creator("builder(params, named)", lambda k, c: {"op": "add_local_func", "params": ["i32", "i64"], "name": "built_%d" % k, "body": [["global.get", B(3)], ["i32.const", 1300 + k], ["i32.add"]]}, "F")
+        creator("builder(locals, call base)", lambda k, c: {"op": "add_local_func", "locals": ["i64", "i32", "i32", "f64"], "body": [["call", B(2)], ["i32.const", 1400 + k], ["i32.add"]]}, "F")
+        creator("builder(params, locals, named, calls earlier)", lambda k, c: {"op": "add_local_func", "params": ["f32"], "locals": ["i32", "f32"], "name": "built_e%d" % k, "body": [["call", R(c["F0"][-1])], ["i32.const", 4], ["i32.load", B(2)], ["i32.add"]]} if c["F0"] else None, "F")
+        creator("add_import_func", lambda k, c: {"op": "add_import_func", "name": "nif%d" % k}, "F")
+        creator("delete_func(unreferenced base local)", lambda k, c: {"op": "delete_func", "id": B(4)}, None)
+        creator("delete_func(unreferenced base import)", lambda k, c: {"op": "delete_func", "id": B(0)}, None)
+        creator("add_imported_global", lambda k, c: {"op": "add_imported_global", "name": "nig%d" % k}, "G")
+        creator("delete_memory(unreferenced base import)", lambda k, c: {"op": "delete_memory", "id": B(0)}, None)
+        creator("set_fn_name(earlier)", lambda k, c: {"op": "set_fn_name", "id": R(c["F"][-1]), "name": "named_new_%d" % k} if c["F"] else None, None)
+    if kind in ("N",):
+        creator("add_imported_global", lambda k, c: {"op": "add_imported_global", "name": "nig%d" % k}, "G")
+        creator("add_global(const)", lambda k, c: {"op": "add_global", "init": [["i32.const", 700 + k]]}, "G")
+        creator("delete_global(unreferenced base local)", lambda k, c: {"op": "delete_global", "id": B(5)}, None)
+        creator("delete_global(unreferenced base import)", lambda k, c: {"op": "delete_global", "id": B(0)}, None)
+        creator("add_import_func", lambda k, c: {"op": "add_import_func", "name": "nif%d" % k}, "F")
+        creator("add_local_func(call base local)", lambda k, c: {"op": "add_local_func", "body": [["call", B(2)], ["i32.const", 900 + k], ["i32.add"]]}, "F")
+        creator("delete_func(unreferenced base local)", lambda k, c: {"op": "delete_func", "id": B(4)}, None)
+        creator("delete_func(unreferenced base import)", lambda k, c: {"op": "delete_func", "id": B(0)}, None)
+        creator("set_fn_name(base local)", lambda k, c: {"op": "set_fn_name", "id": B(3), "name": "renamed_f3_%d" % k}, None)
+        creator("set_fn_name(base import)", lambda k, c: {"op": "set_fn_name", "id": B(1), "name": "renamed_if0_%d" % k}, None)
+        creator("set_fn_name(earlier)", lambda k, c: {"op": "set_fn_name", "id": R(c["F"][-1]), "name": "named_new_%d" % k} if c["F"] else None, None)
     if kind in ("M", "ADD", "DEL"):
         creator("add_import_memory", lambda k, c: {"op": "add_import_memory", "name": "nim%d" % k, "min": 10 + k}, "M")
         creator("add_local_memory", lambda k, c: {"op": "add_local_memory", "min": 20 + k}, "M")
@@ -470,7 +586,7 @@ def histories(kind, maxlen, observe_modes=(True, False)):
     for ln in range(1, maxlen + 1):
         for combo in itertools.product(opts, repeat=ln):
             steps, names = [], []
-            c = {"G": [], "Gimp": [], "Gq": [], "Go": [], "F": [], "Fq": [], "Fo": [], "M": [], "Mq": [], "Mo": []}
+            c = {"G": [], "Gimp": [], "Gq": [], "Go": [], "F": [], "F0": [], "Fq": [], "Fo": [], "M": [], "Mq": [], "Mo": []}
             ok = True
             for name, mk, obs, o in combo:
                 k = len(steps)
@@ -485,6 +601,8 @@ def histories(kind, maxlen, observe_modes=(True, False)):
                     c[obs + ("o" if o else "q")].append(k)
                     if s["op"] == "add_imported_global":
                         c["Gimp"].append(k)
+                    if s["op"] == "add_import_func" or (s["op"] == "add_local_func" and not s.get("params")):
+                        c["F0"].append(k)          # functions that can be called without arguments
                     if o:
                         steps.extend(observers(k, obs, len(steps)))
             if ok:
@@ -492,22 +610,30 @@ def histories(kind, maxlen, observe_modes=(True, False)):
     return out
 
 
-FAMILY = {"C06": "F", "C07": "G", "C08": "M", "C09": "DEL", "C30": "ADD"}
+FAMILY = {"C05": "DEL", "C06": "F", "C07": "G", "C08": "M", "C09": "DEL", "C30": "ADD", "C10": "F10", "C11": "F11", "C29": "N", "C12": "B12"}
 
 
 def make_cases(pid, tier, seed):
+    """quick: every history of <= 2 steps + a seeded sample of 1500 three-step histories;
+    thorough: every history of <= 3 steps"""
+    import random
     kind = FAMILY[pid]
-    maxlen = 2 if tier == "quick" else 3
-    hs = histories(kind, maxlen)
-    if tier != "quick" and len(hs) > 6000:
-        import random
-        rnd = random.Random(seed)
+    hs = histories(kind, 3)
+    if tier == "quick":
         short = [h for h in hs if len(h[0]) <= 2]
         longh = [h for h in hs if len(h[0]) > 2]
-        hs = short + rnd.sample(longh, 6000 - len(short))
+        rnd = random.Random(seed)
+        # always included: create an import, use it somewhere, delete it again (a dangling reference that may live
+        # only in a constant expression)
+        pinned = [h for h in longh if h[0][0].startswith("add_import") and h[0][2].startswith("delete_") and "earlier import" in h[0][2]]
+        rest = [h for h in longh if h not in pinned] if len(pinned) < 400 else longh
+        hs = short + pinned + (rnd.sample(rest, 1500) if len(rest) > 1500 else rest)
     cases = []
     for i, (names, steps) in enumerate(hs):
-        cases.append({"kind": "hist", "id": "%s-m%04d" % (pid, i), "base": BASE, "hist": steps, "names": names})
+        cases.append({"kind": "hist", "id": "%s-m%05d" % (pid, i), "base": BASE, "hist": steps, "names": names,
+                      **({"encode_twice": True, "only_second": True} if pid == "C05" else {}),
+                      **({"judge_names": True} if pid == "C29" else {}),
+                      **({"judge_builder": True} if pid == "C12" else {})})
     return cases
 
 
@@ -533,14 +659,20 @@ def judge(case, r):
         return [("panic-" + str(r.get("stage")), "the history is well-formed (no live reference to a deleted entity) but %s panicked: %s" % (r.get("stage"), r.get("panic", "")[:160]), r)], None
     if dangling:
         return [("dangling-reference-encoded", "%s, yet encode() succeeded instead of failing loudly" % dangling, {"out": r["out"]})], None
+    if case.get("only_second"):
+        # C05: only the second encoding is judged here (what the first one means is C06-C09's subject)
+        s2 = r.get("second", {})
+        if not s2.get("equal"):
+            return [("second-encode-differs", "encoding again without any edit yields %s" % ("a panic" if s2.get("panic") else "different bytes (%s)" % ("still valid" if s2.get("valid") else "no longer valid")), {})], {"kind": "bytes"}
+        return [], {"kind": "bytes"}
     if not r.get("valid"):
         return [("invalid-output", "the encoded module does not validate: %s" % r.get("valid_err", "")[:160], {"out": r["out"]})], None
     impl = link_decoded(r["out"])
     try:
-        Si, Vi = Sem(impl, Z3Dom()).observables()
+        Si, Vi = Sem(impl, Z3Dom()).observables(names=case.get("judge_names", False), builder=case.get("judge_builder", False))
     except Unsupported as e:
         return [("unresolvable-reference", "the encoded module contains %s" % e, {"out": r["out"]})], None
-    Ss, Vs = Sem(spec, Z3Dom()).observables()
+    Ss, Vs = Sem(spec, Z3Dom()).observables(names=case.get("judge_names", False), builder=case.get("judge_builder", False))
     viol = []
     for k in sorted(set(Si) | set(Ss)):
         if Si.get(k) != Ss.get(k):
@@ -558,8 +690,8 @@ def judge(case, r):
     if res == z3.sat:
         m = s.model()
         ci, cs = Sem(impl, IntDom(m)), Sem(spec, IntDom(m))
-        _, Ci = ci.observables()
-        _, Cs = cs.observables()
+        _, Ci = ci.observables(names=case.get("judge_names", False), builder=case.get("judge_builder", False))
+        _, Cs = cs.observables(names=case.get("judge_names", False), builder=case.get("judge_builder", False))
         bad = [k for k in keys if Ci[k] != Cs[k]]
         if not bad:
             raise Unsupported("z3 model does not reproduce under integer evaluation")
@@ -592,7 +724,7 @@ def run_engine_m(pid, tier, seed, out, ev):
     byid = {r["id"]: r for r in results}
     mres = {"programs": 0, "obligations": 0, "unsat": 0, "sat": 0, "loud_failures_as_prescribed": 0, "solver_s": 0.0, "samples": [],
             "functions": ["src/ir/module/mod.rs: Module::parse, Module::encode / encode_internal (import, global, export, element, data, table, code emission with ID remapping), add_global*, add_imported_global*, delete_global, mod_global_init_expr, add_import_func, add_local_func (FunctionBuilder::finish_module), delete_func, add_import_memory, add_local_memory, delete_memory, add_data, ModuleExports::{add_export_func, add_export_mem, delete}, FunctionModifier injection, ModuleIterator::add_global -- executed natively by tv/driver (src/hist.rs); their OUTPUT is validated"],
-            "bounds": ["engine M: one base module (2 imported + 4 local globals, 1 imported + 4 local functions, 1 imported + 2 local memories, 2 tables, 10 exports, 2 element segments, 3 data segments; vlib/mv.py BASE); histories: every sequence of <= %d steps from the %s menu of vlib/mv.py (creators both observed through an export and unobserved); host environment symbolic: 32-bit value per imported global / imported function result / memory size, an array per memory" % (2 if tier == "quick" else 3, FAMILY[pid])],
+            "bounds": ["engine M: one base module (2 imported + 4 local globals, 1 imported + 4 local functions, 1 imported + 2 local memories, 2 tables, 10 exports, 2 element segments, 3 data segments; vlib/mv.py BASE); histories: %s from the %s menu of vlib/mv.py (creators both observed through an export and unobserved); host environment symbolic: 32-bit value per imported global / imported function result / memory size, an array per memory" % ("every sequence of <= 2 steps + a seeded sample of 1500 three-step sequences" if tier == "quick" else "every sequence of <= 3 steps", FAMILY[pid])],
             "assumptions": ["engine M validates the OUTPUT of the real parse -> edit -> encode pipeline (translation validation): the pipeline is run natively per history, z3 decides the equivalence of the output's instantiation semantics with the reference semantics for all host values",
                             "function bodies of the base are straight-line (const, global.get, call, i32.add, i32.load, memory.size): control flow inside bodies is engine T's subject; mutable-global writes, table contents beyond initialisers, start functions and passive segments are outside"]}
     violations = []
@@ -613,6 +745,8 @@ def run_engine_m(pid, tier, seed, out, ev):
             mres["unsat" if st["result"] == "unsat" else "sat"] += 1
             if st["result"] == "unsat" and len(mres["samples"]) < 5 and len(c["names"]) >= 2:
                 mres["samples"].append({"engine": "z3 (engine M)", "case": c["id"], "history": c["names"], "verdict": "unsat: every observable of the encoded module equals the reference for all host values", **st})
+        elif st and st.get("kind") == "bytes":
+            mres["byte_comparisons"] = mres.get("byte_comparisons", 0) + 1
         elif st:
             mres["loud_failures_as_prescribed"] += 1
         for shape, what, detail in v:
